@@ -94,6 +94,9 @@ def facts_for_current_tree(repo=None, use_cache=True):
     try:
         t0 = time.time()
         th, nfiles = tree_hash(repo)
+        # the exporter is part of the key: new exporter => new facts
+        with open(os.path.join(VERIF, 'ripfacts', 'src', 'main.rs'), 'rb') as fh:
+            th = hashlib.sha256((th + hashlib.sha256(fh.read()).hexdigest()).encode()).hexdigest()[:24]
         out_dir = os.path.join(CACHE, 'facts', th)
         marker = os.path.join(out_dir, 'COMPLETE')
         info = {'tree_hash': th, 'files_hashed': nfiles, 'facts_cache': 'miss'}
